@@ -26,7 +26,8 @@ func c16Free(ng *NodeGroupOptions, k int) bool {
 	switch k {
 	case 0: // names
 		pick := func(n string) string { return []string{"", "x"}[verifChoice(n, 2)] }
-		ng.Name, ng.LabelKey, ng.LabelValue, ng.CloudProviderGroupName = pick("name"), pick("label_key"), pick("label_value"), pick("cloud_group")
+		ng.Name = []string{"", "x", DefaultNodeGroup}[verifChoice("name", 3)] // the default group gets no exemption
+		ng.LabelKey, ng.LabelValue, ng.CloudProviderGroupName = pick("label_key"), pick("label_value"), pick("cloud_group")
 		return ng.Name != "" && ng.LabelKey != "" && ng.LabelValue != "" && ng.CloudProviderGroupName != ""
 	case 1: // thresholds
 		lo, up, su := verifInt("lower", -5, 200), verifInt("upper", -5, 200), verifInt("scale_up", -5, 200)
